@@ -9,6 +9,9 @@ import importlib
 
 def run(mods, fns, repo="/repo", verbose=True):
     prog = Program(repo)
+    for m in mods:
+        mm = importlib.import_module("contracts." + m)
+        if hasattr(mm, "prepare"): print("extracted:", mm.prepare(prog))
     S = Spec()
     from contracts import schema
     schema.declare(S)
